@@ -5,6 +5,7 @@ import scen_common
 PID = "C03"
 PROP_V = ["Props/Properties_C03.v", "Props/Properties_C03b.v"]
 GEN_MODULES = ["Consts", "Sites"]
+FLOW_FILES = ['mu.c', 'once.c', 'counter.c']
 REPLAY_HINT = "VRT_SEED=<seed> [env] _work/h/<scenario>: the runtime's vector-clock detector (harness/rt/vrt.c) reports the unordered pair"
 PARTIAL = ["execution-level hand-off theorems exist for the mutex (C03_mutex_handoff over MuModel), the once word (C03_once_handoff over OnceModel: "
            "the view at the end of the once-function is contained in the view at EVERY nsync_run_once* return) and the counter "
